@@ -894,6 +894,25 @@ pub fn c03_subscription_events(run: &Run) {
                             sets.push(vec![a, b]);
                         }
                     }
+                    // aimed pairs inside ONE event: an error recorded at a nullable position together with an error
+                    // that propagates from a non-null position (up to the root field): the recorded one must survive
+                    {
+                        let node_of = |s: &((String, u64), Fault)| s.0 .1;
+                        let nullable_errs: Vec<&((String, u64), Fault)> = singles.iter().filter(|s| s.1 == Fault::Err && singles.iter().any(|t| t.0 == s.0 && t.1 == Fault::Null)).collect();
+                        let nonnull_errs: Vec<&((String, u64), Fault)> = singles.iter().filter(|s| s.1 == Fault::Err && !singles.iter().any(|t| t.0 == s.0 && t.1 == Fault::Null)).collect();
+                        for _ in 0..4 {
+                            if nullable_errs.is_empty() || nonnull_errs.is_empty() {
+                                break;
+                            }
+                            let a = (*r.pick(&nullable_errs)).clone();
+                            let same: Vec<&&((String, u64), Fault)> = nonnull_errs.iter().filter(|b| node_of(b) == node_of(&a) || b.0 .0.split('.').count() != a.0 .0.split('.').count()).collect();
+                            let b = if !same.is_empty() { (**r.pick(&same)).clone() } else { (*r.pick(&nonnull_errs)).clone() };
+                            if a.0 != b.0 {
+                                run.count("subscription_event_pairs_nullable_plus_nonnull", 1);
+                                sets.push(vec![a, b]);
+                            }
+                        }
+                    }
                     for set in sets {
                         let mut case = base_case.clone();
                         for (pos, k) in &set {
